@@ -38,13 +38,13 @@ class _SignalStub:
 PROFILES = {
 	# weights of operation categories per property profile
 	#            tune power format meta drop misc burst idle
-	"C02": dict(tune=18, power=6, fmt=3, meta=2, drop=2, misc=2, burst=50, idle=6),
-	"C03": dict(tune=2, power=10, fmt=6, meta=1, drop=1, misc=1, burst=60, idle=8),
-	"C05": dict(tune=12, power=10, fmt=8, meta=14, drop=8, misc=22, burst=14, idle=4),
-	"C10": dict(tune=3, power=3, fmt=6, meta=26, drop=2, misc=2, burst=50, idle=4),
-	"C12": dict(tune=10, power=30, fmt=2, meta=1, drop=1, misc=3, burst=30, idle=10),
-	"C18": dict(tune=2, power=3, fmt=6, meta=2, drop=26, misc=1, burst=54, idle=4),
-	"C14": dict(tune=6, power=6, fmt=4, meta=6, drop=4, misc=6, burst=34, idle=4, hostile=30),
+	"C02": dict(tune=18, power=6, fmt=3, meta=2, drop=2, misc=2, burst=50, idle=6, restart=4),
+	"C03": dict(tune=2, power=10, fmt=6, meta=1, drop=1, misc=1, burst=60, idle=8, restart=3),
+	"C05": dict(tune=12, power=10, fmt=8, meta=14, drop=8, misc=22, burst=14, idle=4, restart=2),
+	"C10": dict(tune=3, power=3, fmt=6, meta=26, drop=2, misc=2, burst=50, idle=4, restart=2),
+	"C12": dict(tune=10, power=30, fmt=2, meta=1, drop=1, misc=3, burst=30, idle=10, restart=6),
+	"C18": dict(tune=2, power=3, fmt=6, meta=2, drop=26, misc=1, burst=54, idle=4, restart=2),
+	"C14": dict(tune=6, power=6, fmt=4, meta=6, drop=4, misc=6, burst=34, idle=4, hostile=30, restart=2),
 }
 
 
@@ -195,6 +195,8 @@ class Gen:
 		else:
 			nch = rng.choice([1, 2, 3, 3, 4, 5, 6, 7, 8]) if rng.random() < 0.8 else rng.randint(9, 64)
 			hsn = rng.choice([0, 0, rng.randint(1, 63), rng.randint(1, 63)])
+			if self.prop == "C05" and rng.random() < 0.06:
+				hsn = rng.choice([64, 65, 127, 255, -1, 1000])  # argument values over their integer ranges
 			maio = rng.randrange(nch) if rng.random() < 0.8 else rng.randrange(64)
 			chans = []
 			for _ in range(nch):
@@ -449,6 +451,66 @@ class Gen:
 		if rng.random() < 0.1:
 			op["src"] = 50000 + rng.randrange(100)
 		self.ops.append(op)
+
+	def op_restart(self):
+		"""Everything off (the shared clock stops), back on, a traffic pattern — twice, with a
+		re-configuration in between.  The clock restarts at the start frame each time and the
+		pattern is replayed with the same timing, so THE SAME FRAME NUMBERS RECUR for the same
+		senders under a different configuration: whatever was remembered per frame number, per
+		sender or per transceiver across a power cycle shows."""
+		rng = self.rng
+		n = len(self.trx)
+		pattern = []
+		for _ in range(rng.randint(2, 7)):
+			pattern.append({"trx": rng.randrange(n), "adv": rng.randint(1, 6), "tn": rng.randrange(8),
+				"pwr": rng.choice([0, 0, 10, 30]), "kind": rng.choice(["NB", "RAND", "SB", "AB", "TKNB", "EDGE"]),
+				"dt": rng.choice([0, 0, 1000, P_NS // 2, P_NS])})
+		gap_on = rng.choice([1000, P_NS // 3, P_NS])
+
+		def all_off():
+			order = list(range(n))
+			rng.shuffle(order)
+			for i in order:
+				self.ops.append({"op": "cmd", "trx": i, "text": "POWEROFF", "dt": rng.choice([0, 1000])})
+				self.st[i]["on"] = False
+				self.st[i]["fh"] = False
+
+		def all_on():
+			order = list(range(n))
+			rng.shuffle(order)
+			for k, i in enumerate(order):
+				if rng.random() < 0.9:
+					self.ops.append({"op": "cmd", "trx": i, "text": "POWERON", "dt": gap_on if k == 0 else 0})
+					self.st[i]["on"] = True
+
+		def play():
+			for b in pattern:
+				op = {"op": "burst", "trx": b["trx"], "adv": b["adv"], "tn": b["tn"], "pwr": b["pwr"], "kind": b["kind"],
+					"bseed": rng.randrange(1 << 30), "ver": self.st[b["trx"]]["ver"], "dt": b["dt"]}
+				self.ops.append(op)
+			self.ops.append({"op": "idle", "dt": 9 * P_NS})
+
+		all_off()
+		# make sure most of them can be powered on at all
+		for i in range(n):
+			if rng.random() < 0.5:
+				self.cmd(i, "RXTUNE %d" % rng.choice(self.pool))
+				self.cmd(i, "TXTUNE %d" % rng.choice(self.pool))
+		if rng.random() < 0.6:
+			self.op_tune()
+		all_on()
+		play()
+		all_off()
+		for _ in range(rng.randint(1, 4)):
+			r = rng.random()
+			if r < 0.6:
+				self.op_tune()
+			elif r < 0.8:
+				self.op_fmt()
+			else:
+				self.op_meta()
+		all_on()
+		play()
 
 	def op_idle(self):
 		self.ops.append({"op": "idle", "dt": self.rng.randrange(1, 12) * P_NS})
